@@ -10,15 +10,19 @@ Theorem C17_crlf_same_rows : forall s, string_buffer (crlf s) = string_buffer s.
 Proof. exact string_buffer_crlf. Qed.
 Check C17_crlf_same_rows : forall s, string_buffer (crlf s) = string_buffer s.
 
-(** Hence for every input without a legend header the whole cell buffer (cells, quoted
-    texts, styles) is identical, and with it everything computed from it. *)
+(** Hence for every input, with or without a legend, the whole cell buffer (cells, quoted texts,
+    styles) is identical, and with it the document: the drawing is split into lines, which
+    drops the CR of a CRLF, and the legend is read with CRLF taken as LF (repair F13). *)
 Theorem C17_crlf_same_document :
-  forall s st, find_sub LEGEND_MARK s [] = None -> doc (crlf s) st = doc s st.
+  forall s st, doc (crlf s) st = doc s st.
 Proof.
-  intros s st H. unfold doc. rewrite (cellbuffer_from_crlf_nolegend s H). reflexivity.
+  intros s st. unfold doc. rewrite (cellbuffer_from_crlf s). reflexivity.
 Qed.
 Check C17_crlf_same_document :
-  forall s st, find_sub LEGEND_MARK s [] = None -> doc (crlf s) st = doc s st.
+  forall s st, doc (crlf s) st = doc s st.
+Theorem C17_crlf_same_output :
+  forall s st, to_svg_with_settings (crlf s) st = to_svg_with_settings s st.
+Proof. intros s st. unfold to_svg_with_settings. rewrite C17_crlf_same_document. reflexivity. Qed.
 
 (** Blanks appended to a row change neither its quoted texts nor its cells (quoted segments,
     unbalanced quotes and escapes included). *)
@@ -34,18 +38,6 @@ Proof. exact row_cells_trailing_blanks. Qed.
 Theorem C17_trailing_blank_rows :
   forall rows extra, Forall blanks extra -> forall y, cells_of_rows y (rows ++ extra) = cells_of_rows y rows.
 Proof. exact trailing_blank_rows. Qed.
-
-(** The full statement, of which the CRLF clause above is proved for legend-free inputs only:
-    with a legend, declarations spanning lines keep their CR, so equality holds after XML
-    end-of-line normalisation of the style text.  That clause is decided by the grammar lemmas
-    of C16 (CRLF accepted as a separator) and by the correspondence and the oracle of this check. *)
-Definition C17_full : Prop :=
-  forall s st (eol : list Z -> list Z),
-    (forall t, eol (crlf t) = eol t) ->
-    match doc (crlf s) st, doc s st with
-    | Ok a, Ok b => eol (render false 0 a) = eol (render false 0 b)
-    | _, _ => False
-    end.
 
 Example C17_nonvacuous :
   crlf [97; 10; 98; 13; 10; 99] = [97; 13; 10; 98; 13; 10; 99] /\ lines [97; 13; 10; 98; 13; 10; 99] = [[97]; [98]; [99]].
